@@ -3,6 +3,7 @@ import RNacos.Driver.Distro
 import RNacos.Driver.Sequence
 import RNacos.Driver.AuthDrv
 import RNacos.Driver.ConfigDrv
+import RNacos.Driver.NamingDrv
 open RNacos.Driver
 
 /-- Generic loop: `# …` lines are echoed and reset the state. -/
@@ -37,4 +38,6 @@ def main (args : List String) : IO UInt32 := do
   | ["perm", "--spec"] => loop stdin stdout () (fun _ _ => ((), "-")) (); return 0
   | ["config"] => loop stdin stdout ({} : ConfigDrv.St) ConfigDrv.step {}; return 0
   | ["config", "--spec"] => loop stdin stdout ({} : ConfigDrv.SpecSt) ConfigDrv.specStep {}; return 0
+  | ["naming"] => loop stdin stdout ({} : RNacos.Naming.Naming) NamingDrv.step {}; return 0
+  | ["naming", "--spec"] => loop stdin stdout ({} : NamingDrv.SpecSt) NamingDrv.specStep {}; return 0
   | _ => IO.eprintln "usage: driver <model> [--spec]"; return 2
